@@ -1,7 +1,7 @@
 (* Proofs/SrvRfcExamples.v - C08: concrete lockstep runs of the instantiated server model
    (Impl/ServerInst.v) against Spec/Rfc7540Streams.v, by computation. *)
 From H2V Require Import Base.Bytes Base.MachineInt Base.Result Gen.GenConsts Impl.Hpack Impl.ServerConn Impl.ServerInst.
-From H2V Require Import Proofs.SrvBase Proofs.SrvRfcDefs.
+From H2V Require Import Proofs.SrvBase Proofs.SrvRfcDefs Proofs.SrvRfcLegal.
 From Coq Require Import ZArith.
 Local Open Scope N_scope.
 
@@ -93,6 +93,30 @@ Example ex_timer_resets :
   filter (fun o => match o with ORst _ _ => true | _ => false end)
          (trace (fst (srv_run_items ex_tcfg (init_conn ex_tcfg srv_init_hpack) RS.init ex_timer))) = [ORst 1 8; ORst 3 8].
 Proof. vm_compute. reflexivity. Qed.
+
+(* the peer cancels a response that waits for send window (2 of 3 bytes sent): not a deviation (D7 is about a
+   stream that could send), the RST_STREAM is processed, nothing is sent *)
+Definition ex_cancel_pre : list item :=
+  [ F (mkSFrame KSettings 0 0 0 [] 0 0 0 false 0 true 2); F (fr KHeaders 5 1 GET 0 0 0); IDone 1 resp ].
+Definition ex_cancel : item := F (fr KRst 0 1 [] 0 8 0).
+Example ex_cancel_ok :
+  let '(c, s) := srv_run_items ex_cfg ex_init RS.init ex_cancel_pre in
+  known_deviation hpack_state c s (RFrame (fr KRst 0 1 [] 0 8 0)) = false /\ srv_item_ok ex_cfg c ex_cancel s = true /\
+  new_out hpack_state c (srv_feed ex_cfg c ex_cancel) = [ORelease 1 true].
+Proof. vm_compute. repeat split. Qed.
+
+(* a legal frame sequence on three streams (requests with and without body, a cancellation, PRIORITY on an idle
+   stream, WINDOW_UPDATE after the response) and its handler completions: no error of any kind in the trace *)
+Definition ex_legal : list item :=
+  [ F (fr KHeaders 4 1 GET 0 0 0); F (fr KData 1 1 [104; 105] 0 0 0); F (fr KPriority 0 5 [] 0 0 0);
+    IDone 1 resp; F (fr KWinUpd 0 1 [] 0 0 10); F (fr KPing 0 0 [1;2;3;4;5;6;7;8] 0 0 0);
+    F (fr KHeaders 5 3 GET 0 0 0); F (fr KRst 0 3 [] 0 8 0); IDone 3 resp;
+    F (fr KHeaders 1 5 [0x82] 0 0 0); F (fr KCont 4 5 [0x84; 0x87] 0 0 0); IDone 5 resp ].
+Example ex_legal_served :
+  only_frames_and_completions ex_legal = true /\
+  RS.legal (map abs_frame (flat_map frame_of_item ex_legal)) = true /\
+  forallb no_error_at_all (trace (fst (srv_run_items ex_cfg ex_init RS.init ex_legal))) = true.
+Proof. vm_compute. repeat split. Qed.
 
 (* ---------- the known deviations are real ---------- *)
 
